@@ -102,6 +102,10 @@ pub struct Case {
     /// `--files-from` only: the list contains an undecodable line before the n-th entry
     #[serde(default, skip_serializing_if = "Option::is_none")]
     pub list_poison: Option<usize>,
+    /// `--files-from` only: the list arrives through a pipe (`--files-from /dev/stdin`), so it
+    /// can be read exactly once
+    #[serde(default, skip_serializing_if = "std::ops::Not::not")]
+    pub list_via_pipe: bool,
 }
 
 #[derive(Serialize, Deserialize, Clone, Debug, PartialEq, Eq)]
@@ -362,7 +366,8 @@ impl Case {
                     sc.real_tree = true;
                 }
                 PathForm::FilesFrom => {
-                    sc.argv.extend(["--files-from".into(), "files.lst".into()]);
+                    let via_pipe = self.list_via_pipe;
+                    sc.argv.extend(["--files-from".into(), if via_pipe { "/dev/stdin".into() } else { "files.lst".into() }]);
                     let mut list: Vec<u8> = vec![];
                     for (i, line) in self.path_args.iter().enumerate() {
                         if self.list_poison == Some(i) {
@@ -373,10 +378,14 @@ impl Case {
                         list.extend_from_slice(line.as_bytes());
                         list.push(b'\n');
                     }
-                    sc.real_files = vec![RealFile {
-                        path: "files.lst".to_string(),
-                        bytes: list,
-                    }];
+                    if via_pipe {
+                        sc.real_stdin_pipe = Some(list);
+                    } else {
+                        sc.real_files = vec![RealFile {
+                            path: "files.lst".to_string(),
+                            bytes: list,
+                        }];
+                    }
                     sc.real_tree = true;
                 }
             }
@@ -990,7 +999,11 @@ impl Case {
             // A panic inside pasfmt-core on this content alone is the pure formatter's business
             // (C04) and makes the content unusable here. A panic anywhere else (the I/O layer,
             // main) is simply how this file fails when it is alone: exit status non-zero.
-            let io_layer_panic = matches!(r.exit, Exit::Panic(_)) && !r.real_stderr.contains("/core/src/");
+            // (pasfmt-core is a path dependency: its panic locations read `<repo>/core/src/...`;
+            // the standard library's own `core` reads `/rustc/<hash>/library/core/src/...`)
+            let repo = std::env::var("PASFMT_REPO").unwrap_or_else(|_| "/repo".to_string());
+            let io_layer_panic = matches!(r.exit, Exit::Panic(_))
+                && !r.real_stderr.contains(&format!("{repo}/core/src/"));
             if io_layer_panic {
                 stats.probe("c18_file_whose_alone_run_panics_outside_the_core");
             }
